@@ -8,7 +8,7 @@ usage: /venv/bin/python query_exhaustive.py <repo root> <N> <D> ; exit 1 + JSON 
 import itertools, json, sys
 root, N, D = sys.argv[1], int(sys.argv[2]), int(sys.argv[3])
 sys.path.insert(0, root)
-from insights.parsr.query import Entry, compile_queries, select, startswith, eq, lt, ieq
+from insights.parsr.query import Entry, compile_queries, select, startswith, eq, lt, ieq, istartswith
 from insights.parsr.query.boolean import TRUE, FALSE, Any, All, Not, pred, pred2
 
 
@@ -22,7 +22,9 @@ is_a = pred(lambda v: v == "a")
 has_b = pred(lambda v: "b" in str(v))
 ci_ab = pred(lambda v: v == "ab", ignore_case=True)
 none_ = pred(lambda v: None)                 # falsy non-bool result
-LEAVES = [("is_a", is_a), ("has_b", has_b), ("ci_ab", ci_ab), ("none", none_), ("TRUE", TRUE), ("FALSE", FALSE)]
+# library predicates in their case-sensitive and case-insensitive forms over the same (lowered) argument: one expression may hold both
+LEAVES = [("is_a", is_a), ("has_b", has_b), ("ci_ab", ci_ab), ("none", none_), ("TRUE", TRUE), ("FALSE", FALSE),
+          ("eq('ab')", eq("ab")), ("ieq('AB')", ieq("AB")), ("startswith('a')", startswith("a")), ("istartswith('A')", istartswith("A"))]
 VALUES = ["a", "b", "ab", "AB", "Ab", "", 1]
 
 
@@ -63,6 +65,8 @@ for name, t in terms(D):
     f = t.to_pyfunc()
     nterms += 1
     for v in VALUES:
+        if "startswith" in name and not isinstance(v, str):
+            continue          # str.startswith raises on a non-string: the property speaks of non-raising predicates
         a, b = bool(t.test(v)), bool(f(v))
         if a != b:
             fail(violation="interpreted != compiled", term=name, value=v, interpreted=a, compiled=b)
